@@ -35,6 +35,10 @@ func c05(p *an.Prog, r *an.R, tier string) {
 	for _, rw := range rewriters {
 		f := p.Func(rw.pkg, rw.fn)
 		d := p.Decl(f)
+		// small helpers of the rewriters may be inlined into their only caller: their literals are then found there
+		if d == nil && (rw.fn == "invertConst" || rw.fn == "flattenAndOr" || rw.fn == "stripCaseScopesList" || rw.fn == "evalAndOrConstants") {
+			continue
+		}
 		if !r.Anchor(d != nil, rw.pkg+"."+rw.fn) {
 			continue
 		}
